@@ -368,7 +368,7 @@ impl VarFileValueCache {
         debug_assert!(is_new || !piece.offset.is_zero());
         //
         let (encorded_piece_len, piece_len, _value_len) = piece.encoded_piece_size();
-        let new_piece_size = self
+        let mut new_piece_size = self
             .0
             .piece_mgr
             .roundup(ValuePieceSize::new(encorded_piece_len + piece_len));
@@ -395,6 +395,13 @@ impl VarFileValueCache {
         {
             let free_piece_offset = self.0.pop_free_piece_list(new_piece_size)?;
             let new_piece_offset = if !free_piece_offset.is_zero() {
+                // a piece of the large free list may be larger than requested:
+                // use the whole piece, otherwise its tail would be lost.
+                self.0.seek_from_start(free_piece_offset)?;
+                let free_piece_size = self.0.read_piece_size()?;
+                if new_piece_size < free_piece_size {
+                    new_piece_size = free_piece_size;
+                }
                 self.0.seek_from_start(free_piece_offset)?;
                 free_piece_offset
             } else {
